@@ -56,25 +56,27 @@ def visitIfaceRec (sy : Symbols) : Nat → Iface → Graph → Except Stage Grap
         | none => .error .cycles
         | some bi => visitIfaceRec sy fuel bi (g.addEdge i.name bi.name)
 
+/-- the field loop of `visit_struct_recurse`, with the recursive call abstracted -/
+def structFieldsWith (sy : Symbols) (f : Struct → Graph → Except Stage Graph) (owner : Nat) :
+    List Field → Graph → Except Stage Graph
+  | [], g => .ok g
+  | fl :: fs, g =>
+    match fl.ty with
+    | .custom c =>
+      match sy.structLookup c with
+      | none => .error .cycles
+      | some cs =>
+        match f cs (g.addEdge owner cs.name) with
+        | .error e => .error e
+        | .ok g' => structFieldsWith sy f owner fs g'
+    | _ => structFieldsWith sy f owner fs g
+
 /-- `visit_struct_recurse`: the cycle test is at the head of each call only -/
 def visitStructRec (sy : Symbols) : Nat → Struct → Graph → Except Stage Graph
   | 0, _, _ => .error .fuel
   | fuel+1, s, g =>
     if g.hasCycle then .ok g
-    else
-      let rec go : List Field → Graph → Except Stage Graph
-        | [], g => .ok g
-        | f :: fs, g =>
-          match f.ty with
-          | .custom c =>
-            match sy.structLookup c with
-            | none => .error .cycles
-            | some cs =>
-              match visitStructRec sy fuel cs (g.addEdge s.name cs.name) with
-              | .error e => .error e
-              | .ok g' => go fs g'
-          | _ => go fs g
-      go s.fields g
+    else structFieldsWith sy (visitStructRec sy fuel) s.name s.fields g
 
 /-- `Cycles::run_pass`: walk the main file's nodes, then both toposorts -/
 def cyclesPass (sy : Symbols) (fuel : Nat) (nodes : List Node) : Except Stage (List Nat) :=
@@ -149,8 +151,9 @@ structure ArgFlags where
   arrOut : Bool := false
   valOut : Bool := false
 
-/-- the per-parameter checks, exactly as coded (note the asymmetry: for `in` arrays only
-    `Struct::Big` is tested for embedded objects, for `out` arrays both classes) -/
+/-- the per-parameter checks, exactly as coded: arrays of object-bearing structs (either
+    class, either direction), bounded data arrays, unbounded object arrays and a second
+    object array of one direction are refused -/
 def checkParam (p : MParam) (fl : ArgFlags) : Except Stage ArgFlags :=
   match p.dir, p.arr with
   | .inp, .none =>
@@ -166,10 +169,12 @@ def checkParam (p : MParam) (fl : ArgFlags) : Except Stage ArgFlags :=
     match p.ty with
     | .iface _ =>
       if !bounded then .error .ifaces
-      else .ok (match d with | .inp => { fl with arrIn := true } | .out => { fl with arrOut := true })
-    | .struct small s =>
-      let tested := match d with | .inp => !small | .out => true
-      if tested && s.containsInterfaces then .error .ifaces
+      else
+        match d with
+        | .inp => if fl.arrIn then .error .ifaces else .ok { fl with arrIn := true }
+        | .out => if fl.arrOut then .error .ifaces else .ok { fl with arrOut := true }
+    | .struct _ s =>
+      if s.containsInterfaces then .error .ifaces
       else if bounded then .error .ifaces
       else .ok fl
     | .prim _ => if bounded then .error .ifaces else .ok fl
